@@ -374,6 +374,9 @@ class Builder:
             ss, msec = divmod(rem, 1000)
             nd = hint.get("fraction_digits", 3)
             frac = f"{msec:03d}"[:nd] if nd <= 3 else f"{msec:03d}" + "0" * (nd - 3)
+            if nd == 3 and n >= 20 and rng.random() < 0.3:
+                # the field is wide enough for microsecond resolution ("ms, us, or decimal seconds"): 4..6 fraction digits
+                frac += "".join(rng.choice("0123456789") for _ in range(rng.randint(1, 3)))
             text = f"{y:04d}{m:02d}{d:02d}{hh:02d}{mm:02d}{ss:02d}{frac}"
             return text, text
         if g == "date_ymd":  # "YYYY MM DD"
